@@ -410,11 +410,17 @@ PPL::Grid::relation_with(const Congruence& cg) const {
     }
   }
 
-  if (!generators_are_up_to_date() && !update_generators()) {
-    // Updating found the grid empty.
-    return Poly_Con_Relation::saturates()
-      && Poly_Con_Relation::is_included()
-      && Poly_Con_Relation::is_disjoint();
+  if (!generators_are_up_to_date()) {
+    // Updating the generators simplifies the congruence system:
+    // `cg' may be (a reference to) one of its rows.
+    const Congruence cg_copy(cg);
+    if (!update_generators()) {
+      // Updating found the grid empty.
+      return Poly_Con_Relation::saturates()
+        && Poly_Con_Relation::is_included()
+        && Poly_Con_Relation::is_disjoint();
+    }
+    return relation_with(cg_copy);
   }
 
   // Return one of the relations
@@ -589,7 +595,14 @@ PPL::Grid::relation_with(const Grid_Generator& g) const {
   }
 
   if (!congruences_are_up_to_date()) {
+    // Updating the congruences simplifies the generator system:
+    // `g' may be (a reference to) one of its rows.
+    const Grid_Generator g_copy(g);
     update_congruences();
+    return
+      con_sys.satisfies_all_congruences(g_copy)
+      ? Poly_Gen_Relation::subsumes()
+      : Poly_Gen_Relation::nothing();
   }
 
   return
